@@ -82,6 +82,19 @@ pub fn replay(_args: &[String]) {
     let mut out = Out::new();
     for_each_case(|i, c| {
         let mut o = run_case(&c);
+        // a level that is not an integer: every spelling of such a value must get the same verdict
+        if c.to_string().contains("\"bad\"") {
+            let n = bad_spellings().len();
+            for k in 1..n {
+                BAD_SPELLING.store(k, std::sync::atomic::Ordering::Relaxed);
+                let other = run_case(&c);
+                if other["out"] != o["out"] {
+                    o["out"] = json!(format!("{} but {} when the value is spelt {}", o["out"].as_str().unwrap_or("?"), other["out"].as_str().unwrap_or("?"), bad_spellings()[k]));
+                    break;
+                }
+            }
+            BAD_SPELLING.store(0, std::sync::atomic::Ordering::Relaxed);
+        }
         o["i"] = json!(i);
         out.put(&o);
     });
